@@ -44,6 +44,16 @@ def shape_list(rng, tier):
             out.append((False, [(kind, [(0, a), (1, ''), (2, b)])]))
             out.append((True, [('unit', []), (kind, [(0, a), (2, b)])]))
     out.append((False, [('unit', [])]))
+    # many fields (two-digit tuple indices, long builder chains): 8, 9, 10 with one ignored, 12, 16, 17 printed fields -
+    # in a struct and in the second variant of an enum; generic types are left out (one instantiation per value)
+    small = [i for i, ft in enumerate(FT) if ft[1] not in TGEN]
+    for kind in kinds:
+        for n, nign in ((8, 0), (9, 0), (10, 1), (12, 0), (16, 0), (17, 0), (19, 2)):
+            ign = set(rng.sample(range(n), nign))
+            fts = [(small[(i * 3 + n) % len(small)], 'I' if i in ign else '') for i in range(n)]
+            out.append((False, [(kind, fts)]))
+            if n in (9, 12, 17):
+                out.append((True, [('unit', []), (kind, fts)]))
     # enums: a transparent field in EVERY variant (the one-transparent-field rule is per variant)
     for kinds in (('tuple', 'named'), ('named', 'tuple', 'tuple'), ('tuple', 'unit', 'named')):
         vs = []
@@ -75,7 +85,7 @@ def vn(i, raw):
 
 
 def fields_s(kind, fts, raw):
-    names = ['a', 'r#type' if raw else 'b', 'c', 'd']
+    names = ['a', 'r#type' if raw else 'b', 'c', 'd'] + ['g%d' % i for i in range(4, 40)]
     fs = []
     for i, (fi, flag) in enumerate(fts):
         attrs = [sx.a_debug(sx.m_list(sx.gargs(transparent=(flag in ('T', 'B')), ignore=(flag in ('I', 'B')))))] if flag else []
@@ -84,7 +94,7 @@ def fields_s(kind, fts, raw):
 
 
 def rust_fields(kind, fts, raw, keep):
-    names = ['a', 'r#type' if raw else 'b', 'c', 'd']
+    names = ['a', 'r#type' if raw else 'b', 'c', 'd'] + ['g%d' % i for i in range(4, 40)]
     items = [(names[i], FT[fi][1], FT[fi][2]) for i, (fi, flag) in enumerate(fts) if keep(flag)]
     if kind == 'named':
         return ('{ %s }' % ', '.join('pub %s: %s' % (n, t) for n, t, _ in items),
